@@ -16,6 +16,12 @@ beginOp_ok operate_ok operate_no_oob operate_inv new_ok run_inv run_no_oob histo
 extractBytes_ok rekey_ok finalize_ok read_ok oob_is_live posBegin_lt_256 operate_uninit operate_mismatch duplexLoop_append
 operate_append AD_append MetaAD_append KEYm_append PRFm_add operate_chunks clone_independent origin_independent clone_same_step""".split()]
 
+LAT_INV = ["Voi.Props.LatticeInv." + n for n in """inv_init inv_swap inv_narrow inv_update inv_head inv_loop inv_run fsv_congr
+fsv_congr_emod fsv_ne_zero fsv_short fsv_fitsI128 fsv_d1_not_dvd fsv_d1_emod_ne_zero fsv_d1_ne_zero lagrange update_decreases
+loop_terminates fsv_terminates loop_mono rinv_loop fsv_rangeOk fsvChecked_ok fsvChecked_ne_rangeViolation fsv_total_correct fsv_partial""".split()]
+LAT_REF = ["Voi.Props.LatticeRefine." + n for n in """sval_wrap addShifted_wrap subShifted_wrap fromInt512_wrap head_sim update_sim loop_sim
+refines fsvW_eq_fsv no_model_mismatch""".split()]
+
 PROPS = {
     "C01": dict(
         level="translation_validation",
@@ -32,6 +38,8 @@ PROPS = {
                 theorems={"Voi.Props.StrobeInv": STROBE_THMS}),
     "C14": dict(level="translation_validation", streams=[("H1", 2500), ("H2", 2000)], configs_quick=Q4, configs_thorough=T4, theorems={}),
     "C15": dict(level="translation_validation", streams=[("E1", 2000)], configs_quick=Q4, configs_thorough=T4, theorems={}),
+    "C16": dict(level="proof", streams=[("L1", 3000)], configs_quick=Q4, configs_thorough=T4,
+                theorems={"Voi.Props.LatticeInv": LAT_INV, "Voi.Props.LatticeRefine": LAT_REF}),
     "C17": dict(level="translation_validation", streams=[("R1", 4000)], configs_quick=["default", "force32bit"], configs_thorough=T4, theorems={}),
 }
 NOT_YET = {}
